@@ -350,3 +350,18 @@ func (n *normCtx) linVar(o types.Object, name string) linForm {
 	}
 	return linForm{name: 1}
 }
+
+// linOfResultAt: the linear form of result i of fc at the exit vertex `at` — the expression of
+// an explicit `return a, b, …`, or the named result's value at a bare return.
+func linOfResultAt(p *Prog, fc *FuncCtx, i int, at int) linForm {
+	if rs, ok := fc.G.V[at].Node.(*ast.ReturnStmt); ok && len(rs.Results) > 0 {
+		if i < len(rs.Results) {
+			return linOf(p, fc, rs.Results[i])
+		}
+		return linForm{"<result>": 1}
+	}
+	if o := fc.ResultObj(i); o != nil {
+		return linOfVarAt(p, fc, o, at)
+	}
+	return linForm{"<result>": 1}
+}
